@@ -1,15 +1,16 @@
 #!/usr/bin/env python3
 """Re-runs the owning property's quick check (plus recorded extra checks) against every kept seed and refreshes meta.json."""
 import glob, json, os, re, subprocess, sys
+VERIF = os.path.dirname(os.path.dirname(os.path.abspath(__file__)))
 only = sys.argv[1:] 
 rows = []
-for d in sorted(glob.glob('/verif/seeded/*/')):
+for d in sorted(glob.glob(VERIF + '/seeded/*/')):
     name = os.path.basename(d.rstrip('/'))
     if only and not any(name.startswith(o) for o in only):
         continue
     meta = json.load(open(d + 'meta.json'))
     for p in list(meta['checks'].keys()):
-        out = subprocess.run(['/verif/tools/try_seed.sh', p, d + 'patch.diff'], stdout=subprocess.PIPE, stderr=subprocess.STDOUT, text=True).stdout
+        out = subprocess.run([VERIF + '/tools/try_seed.sh', p, d + 'patch.diff'], stdout=subprocess.PIPE, stderr=subprocess.STDOUT, text=True).stdout
         rc = re.search(r'exit=(\d+)', out)
         sigs = re.findall(r'signature: (.*)', out)
         meta['checks'][p] = {'exit': int(rc.group(1)) if rc else None, 'signatures': sigs, 'wall': (re.search(r'wall=(\d+)s', out) or [None, None])[1]}
